@@ -35,6 +35,8 @@ def run(R):
     R.coq_files(FILES)
     R.coq_property()
     R.audit()
+    if R.tier == "thorough":
+        R.coqchk()
     n = 400 if R.tier == "quick" else 6000
     obs = observe(R, n)
     total = 0
